@@ -209,6 +209,26 @@ pub fn block_on_tokio<F: core::future::Future>(f: F) -> F::Output {
     tokio::runtime::Builder::new_multi_thread().worker_threads(3).enable_all().build().unwrap().block_on(f)
 }
 
+// ------------------------------------------------------------------ native only: heap allocations of the calling thread (C19)
+#[cfg(not(kani))]
+pub mod alloc_count {
+    use std::alloc::{GlobalAlloc, Layout, System};
+    use std::cell::Cell;
+    thread_local! { static N: Cell<usize> = const { Cell::new(0) }; }
+    pub struct Counting;
+    unsafe impl GlobalAlloc for Counting {
+        unsafe fn alloc(&self, l: Layout) -> *mut u8 { let _ = N.try_with(|c| c.set(c.get() + 1)); System.alloc(l) }
+        unsafe fn alloc_zeroed(&self, l: Layout) -> *mut u8 { let _ = N.try_with(|c| c.set(c.get() + 1)); System.alloc_zeroed(l) }
+        unsafe fn realloc(&self, p: *mut u8, l: Layout, n: usize) -> *mut u8 { let _ = N.try_with(|c| c.set(c.get() + 1)); System.realloc(p, l, n) }
+        unsafe fn dealloc(&self, p: *mut u8, l: Layout) { System.dealloc(p, l) }
+    }
+    /// allocations made by the current thread so far
+    pub fn allocs() -> usize { N.with(|c| c.get()) }
+}
+#[cfg(not(kani))]
+#[global_allocator]
+static GLOBAL_ALLOC: alloc_count::Counting = alloc_count::Counting;
+
 // ------------------------------------------------------------------ native only: thread probes (C08) and watchdog (C18)
 #[cfg(not(kani))]
 pub mod probes {
